@@ -120,12 +120,37 @@ def run_shard(prop_id, sub_name, tier, seed, shard, n_examples, budget_s, shrink
         sub = {s.name: s for s in mod.SUBS}[sub_name]
         state = {"first_fail_t": None, "best": None, "best_len": None}
 
+        import signal
+
+        class _CaseTimeout(BaseException):
+            pass
+
+        def _on_alarm(signum, frame):
+            raise _CaseTimeout()
+
+        case_s = float(os.environ.get("KVERIF_CASE_S", "90" if tier == "quick" else "600"))
+        signal.signal(signal.SIGALRM, _on_alarm)
+
         def judge(case):
             """returns None or a failure dict; updates stats"""
             try:
-                with warnings.catch_warnings():
-                    warnings.simplefilter("ignore")
-                    info = sub.run(case) or {}
+                signal.setitimer(signal.ITIMER_REAL, case_s)
+                try:
+                    with warnings.catch_warnings():
+                        warnings.simplefilter("ignore")
+                        info = sub.run(case) or {}
+                finally:
+                    signal.setitimer(signal.ITIMER_REAL, 0)
+            except _CaseTimeout:
+                # a single case that does not finish within KVERIF_CASE_S is inconclusive (a time budget is never a violation); the case is kept
+                # under failures/<Cnn>/timeout-*.json for analysis
+                stats["inconclusive_budget"] += 1
+                stats["discarded_by_rule"][f"case did not finish within {case_s:.0f} s (inconclusive)"] += 1
+                d = os.path.join(HOME, "failures", prop_id)
+                os.makedirs(d, exist_ok=True)
+                with open(os.path.join(d, f"timeout-{sub_name}-{case_hash(case)}.json"), "w") as fh:
+                    fh.write(canon({"property": prop_id, "subcheck": sub_name, "facet": "timeout", "detail": f"> {case_s} s", "case": case}))
+                return None
             except Discard as d:
                 stats["discarded_by_rule"][d.reason] += 1
                 return None
